@@ -23,7 +23,7 @@ LEVEL = "exploration"
 RULE = ("scenario = 1..3 producers x 1..10 items each (typed messages of the four envelope classes + legacy class, plain dicts, "
         "pre-serialised strings, unserialisable objects) x child read behaviour (eager/slow/stall windows) x pipe capacity x close instant; "
         "non-trivial = a send blocked on back-pressure, or an unserialisable item preceded a serialisable one, or >= 2 producers interleaved")
-PROBES = ["stdin_send_blocked", "unserialisable_before_valid", "producers_interleaved", "payload_with_line_breaks", "closed_while_backlog"]
+PROBES = ["frame_over_64k", "inbound_batch_rejected_during_writes", "stdin_send_blocked", "unserialisable_before_valid", "producers_interleaved", "payload_with_line_breaks", "closed_while_backlog"]
 TIERS = {"quick": {"runs": 15000, "wall": 45.0}, "thorough": {"runs": 1000000, "wall": 560.0}}
 ASSUMPTIONS = [
     "order 'sent' = order in which the (real, FIFO) write stream accepted the items",
@@ -33,7 +33,7 @@ ASSUMPTIONS = [
 STUB = ["child process and its stdin pipe: FakeProcess (capacity / drain semantics of asyncio's StreamWriter are modelled)"]
 SHRINK_LISTS = ["items"]
 
-TEXTS = ["plain", "line\nbreak", "cr\rlf\r\n", "ls ps \u0085", "nul\u0000", "q\"uote\\back", "\U0001F600 astral", "é€", ""]
+TEXTS = ["plain", "line\nbreak", "cr\rlf\r\n", "ls\u2028ps\u2029nel\u0085", "nul\u0000", "q\"uote\\back", "\U0001F600 astral", "é€", ""]
 UNSER = ["object", "set_in_dict", "bytes", "circular", "typed_with_object", "int_item", "none_item"]
 
 
@@ -58,6 +58,8 @@ def _gen_item(rng, k):
         o = {"jsonrpc": "2.0", "id": mid, "result": {"content": [{"type": "text", "text": t}], "k": k, "nul": None}}
     else:
         o = {"jsonrpc": "2.0", "id": mid, "error": {"code": -32000 - k, "message": t or "m", "data": {"k": k}}}
+    if rng.random() < 0.06:
+        it["big"] = rng.choice([70_000, 140_000, 300_000])
     it["obj"] = o
     if shape == "str_compact":
         it["ensure_ascii"] = rng.random() < 0.3
@@ -81,12 +83,25 @@ def generate(rng: random.Random, tier: str) -> dict:
     fault = None
     if rng.random() < 0.12:
         fault = {"kind": rng.choice(["child_closes_stdin", "child_exits"]), "t": rng.randrange(0, 120)}
-    return {"v": 1, "items": items, "read_mode": read_mode, "read_every": rng.choice([1, 2, 10]), "read_bytes": rng.choice([1, 7, 64, 300]),
+    read_bytes = rng.choice([1, 7, 64, 300])
+    read_every = rng.choice([1, 2, 10])
+    if any(it.get("big") for it in items):
+        # keep virtual drain time (and simulator steps) bounded: a slow child still reads 4..32 KiB per tick
+        read_bytes = rng.choice([4096, 32768])
+        read_every = 1
+    version = rng.choice([None, None, "2025-06-18", "2025-03-26"])
+    inbound = [{"t": rng.randrange(0, 300), "hops": rng.choice([0, 1, 2, 3])} for _ in range(rng.choice([0, 0, 1, 2, 4]))] if version == "2025-06-18" else []
+    return {"v": 1, "version": version, "inbound_batches": inbound, "items": items, "read_mode": read_mode, "read_every": read_every, "read_bytes": read_bytes,
             "capacity": rng.choice([1, 16, 100, 1000, 65536]), "stall": [rng.randrange(0, 50), rng.randrange(10, 400)],
             "close_at": rng.choice([None, None, 0, 5, 50]), "fault": fault}
 
 
 def simplify(scn):
+    if scn.get("inbound_batches"):
+        c = copy.deepcopy(scn); c["inbound_batches"] = []; yield c
+    for i, it in enumerate(scn["items"]):
+        if it.get("big"):
+            c = copy.deepcopy(scn); del c["items"][i]["big"]; yield c
     if scn["fault"]:
         c = copy.deepcopy(scn); c["fault"] = None; yield c
     if scn["read_mode"] != "eager":
@@ -126,6 +141,9 @@ def _materialise(it):
         if w == "none_item":
             return None, None  # json.dumps(None) -> "null": a line "null"; accept either (see oracle)
     o = it["obj"]
+    if it.get("big"):
+        o = copy.deepcopy(o)
+        o["pad"] = ("é€\u2028" * (it["big"] // 3))[: it["big"]]
     if sh == "dict":
         return copy.deepcopy(o), o
     if sh == "str_compact":
@@ -156,9 +174,15 @@ def execute(scn: dict) -> dict:
         st["factory"] = factory
         with patched((anyio, "open_process", factory)):
             client = stdio.StdioClient(StdioParameters(command="sim-child", args=[]))
+            if scn.get("version"):
+                client.set_protocol_version(scn["version"])
             async with client:
                 child = factory.children[0]
                 st["child"] = child
+                for b in scn.get("inbound_batches", []):
+                    # a server batch arriving while the writer is busy: at a non-batching version the reader answers it on the same stdin
+                    sim.at(sim.now() + ticks(b["t"]), child.write_stdout, [b'[{"jsonrpc":"2.0","method":"notifications/message","params":{"data":"b"}}]\n'],
+                           tie=0, hops=b["hops"])
                 _read, write = client.get_streams()
                 ws = RecSend(sim, write)
                 st["ws"] = ws
@@ -278,6 +302,25 @@ def execute(scn: dict) -> dict:
     # compare line by line
     i = 0
     ok = True
+    rejections = 0
+    kept = []
+    for ln in lines:
+        try:
+            o_ = json.loads(ln)
+        except Exception:
+            o_ = None
+        if isinstance(o_, dict) and isinstance(o_.get("error"), dict) and o_["error"].get("code") == -32600 and "batching" in str(o_["error"].get("message", "")).lower():
+            rejections += 1
+            continue
+        kept.append(ln)
+    lines = kept
+    if scn.get("inbound_batches"):
+        probe("inbound_batch_rejected_during_writes")
+        # a batch arriving after the write stream (and with it the child's stdin) was closed cannot be answered: only an upper bound
+        if rejections > len(scn["inbound_batches"]):
+            V("framing", "rejection-line-count", f"{len(scn['inbound_batches'])} server batches arrived but {rejections} -32600 lines reached the child")
+    if any(it.get("big") for it in accepted):
+        probe("frame_over_64k")
     for ln in lines:
         if ln == "" and any(it["shape"] == "str_trailing_nl" for it in accepted):
             continue  # a blank line after a string that already ended in a newline carries no message (NDJSON readers skip it)
